@@ -37,12 +37,12 @@ func genC02(rt *rapid.T) CaseC02 {
 	}
 	m := rapid.IntRange(2, max).Draw(rt, "nacts")
 	for i := 0; i < m; i++ {
-		a := ActC02{Kind: rapid.SampledFrom([]string{"write", "write", "write", "cut", "heal", "deliver", "deliver", "deliver", "drop", "dup", "restart"}).Draw(rt, "kind"),
+		a := ActC02{Kind: rapid.SampledFrom([]string{"write", "write", "write", "cut", "heal", "deliver", "deliver", "deliver", "drop", "dup", "restart", "gate", "release", "release"}).Draw(rt, "kind"),
 			I: rapid.IntRange(0, c.N-1).Draw(rt, "i")}
 		switch a.Kind {
 		case "cut", "heal":
 			a.J = rapid.IntRange(0, c.N-1).Draw(rt, "j")
-		case "deliver", "drop", "dup":
+		case "deliver", "drop", "dup", "release":
 			a.K = rapid.IntRange(0, 30).Draw(rt, "k")
 		case "write":
 			a.K = rapid.IntRange(0, 3).Draw(rt, "key")
@@ -72,6 +72,7 @@ func execC02(c CaseC02) *Outcome {
 	cnt := 0
 	faulty := false
 	restarted := map[int]bool{}
+	gated := map[int]bool{}
 	for ai, a := range c.Acts {
 		i := a.I % c.N
 		switch a.Kind {
@@ -130,7 +131,20 @@ func execC02(c CaseC02) *Outcome {
 				w.Deliver(m)
 				w.Deliver(m)
 			}
+		case "gate":
+			// from now on every block fetch of replica i parks until the harness releases it
+			w.Peers[i].SetGate(true)
+			gated[i] = true
+		case "release":
+			if w.Peers[i].ReleaseParked(a.K) {
+				o.Labels = append(o.Labels, "fetch-released-by-hand")
+			}
 		case "restart":
+			if gated[i] {
+				// opening the database reads its manifest: not while the gate is on
+				w.Peers[i].SetGate(false)
+				gated[i] = false
+			}
 			if err := cl.Reopen(ctx, i); err != nil {
 				return fail("action %d: restart of replica %d failed: %v", ai, i, err)
 			}
@@ -143,6 +157,9 @@ func execC02(c CaseC02) *Outcome {
 	// final phase: no more writes, every pair reconnects (each side sees the other join),
 	// everything in flight is delivered, no further fault
 	w.AutoDeliver = true
+	for i := range gated {
+		w.Peers[i].SetGate(false) // blocks held by a connected peer are fetchable again
+	}
 	for i := 0; i < c.N; i++ {
 		for j := i + 1; j < c.N; j++ {
 			if w.Linked(i, j) {
